@@ -230,4 +230,43 @@ example : (mungeText (fun _ => some 0) exFams).map (fun f => (f.name, f.typ, f.s
     [("c".toList, "counter".toList, ["c_total".toList]), ("c_created".toList, "gauge".toList, ["c_created".toList]),
      ("é g".toList, "gauge".toList, ["é g".toList])] := by decide
 
+/-- non-vacuity with a timestamp: a gauge sample exposed with the millisecond count 1500 (1.5 s); `int()` is instantiated
+by a function that reads exactly the token `1500` -/
+def exFamsTs : List Family :=
+  [⟨"g".toList, "h".toList, "gauge".toList, [],
+      [⟨"g".toList, [("l".toList, "v\n".toList)], "2.5".toList, some ⟨.flt "1.5".toList, 1500⟩, none⟩]⟩]
+
+theorem intStr_1500 : intStr 1500 = "1500".toList := by
+  show decDigits 1500 = _
+  rw [decDigits]; simp only [show ¬ (1500 < 10) by omega, ↓reduceDIte]
+  rw [decDigits]; simp only [show ¬ (1500 / 10 < 10) by omega, ↓reduceDIte]
+  rw [decDigits]; simp only [show ¬ (1500 / 10 / 10 < 10) by omega, ↓reduceDIte]
+  rw [decDigits]; simp only [show (1500 / 10 / 10 / 10 < 10) by omega, ↓reduceDIte]
+  decide
+
+def exInt (s : Str) : Option Int := if s = "1500".toList then some 1500 else none
+
+example : Expressible false exInt (fun _ => some 0) exFamsTs ∧ (∀ fam ∈ exFamsTs, RegularFam fam) ∧
+    NamesDiffer (exFamsTs.flatMap famBlocks) := by
+  refine ⟨?_, ?_, by decide⟩
+  · intro fam hf
+    simp only [exFamsTs, List.mem_cons, List.not_mem_nil, or_false] at hf
+    subst hf
+    refine ⟨by decide, by decide, ?_⟩
+    intro s hm
+    simp only [List.mem_cons, List.not_mem_nil, or_false] at hm
+    subst hm
+    refine ⟨⟨by decide, by decide⟩, by decide, rfl, ?_, by rfl⟩
+    intro m hm
+    have : m = 1500 := by simpa [millisOf] using hm.symm
+    subst this
+    exact ⟨by rw [intStr_1500]; rfl, by decide +kernel⟩
+  · intro fam hf
+    simp only [exFamsTs, List.mem_cons, List.not_mem_nil, or_false] at hf
+    subst hf; decide
+
+/-- …and the parsed family carries the sample with the millisecond count 1500, to be divided by 1000 -/
+example : (mungeText (fun _ => some 0) exFamsTs).map (fun f => (f.name, f.typ, f.samples.map (fun s => (s.name, s.labels, s.ts)))) =
+    [("g".toList, "gauge".toList, [("g".toList, [("l".toList, "v\n".toList)], some ⟨.int 1500⟩)])] := by rfl
+
 end PromVerif.Props.C03
